@@ -52,19 +52,22 @@ func Scenarios(r *ev.Run, withDry bool) []*Scenario {
 	w2 := PickIDs(2, det(2), []Want{{0, k}, {0, d}, {1, k}})
 	w3 := PickIDs(3, det(2), []Want{{0, k}, {1, d}, {2, k}})
 	rc := []fx.Kind{fx.Root, fx.Child}
+	// NoMergeDepth: every history of length <= 4 is executed whatever the canonical key says; <= 5 in three one-worker
+	// scenarios with alphabets of 9-10 events. More does not fit the quick budget
+	// of C02, whose executions are the dearer ones; with 16-17 events length 5 alone would triple the scenario.
 	out := []*Scenario{
 		{Name: "det-w1", Workers: 1, IDs: w1[:2], Kinds: rc, Samplers: []func() any{det(2), det(1)}, KeptPerWorker: 4,
-			Traces: traces, Advances: advances, EjectBytes: []int{-1, 0}, Depth: q(7, 9), MaxSpansPerTrace: 3, MaxAdv: 2, MaxReloads: 1},
+			Traces: traces, Advances: advances, EjectBytes: []int{-1, 0}, Depth: q(7, 9), MaxSpansPerTrace: 3, MaxAdv: 2, MaxReloads: 1, NoMergeDepth: 3},
 		{Name: "det-w2", Workers: 2, IDs: w2, Kinds: rc, Samplers: []func() any{det(2), det(1)}, KeptPerWorker: 4,
-			Traces: traces, Advances: advances, EjectBytes: []int{-1, 0}, Depth: q(6, 7), MaxSpansPerTrace: 2, MaxAdv: 2, MaxReloads: 1},
+			Traces: traces, Advances: advances, EjectBytes: []int{-1, 0}, Depth: q(6, 7), MaxSpansPerTrace: 2, MaxAdv: 2, MaxReloads: 1, NoMergeDepth: 3},
 		{Name: "rules-marker-w1", Workers: 1, IDs: w1[:2], Kinds: []fx.Kind{fx.Child}, Marked: true, Samplers: []func() any{rulesMarker, det(1)}, KeptPerWorker: 4,
-			Traces: traces, Advances: advances[:1], EjectBytes: []int{-1, 0}, Depth: q(6, 8), MaxSpansPerTrace: 3, MaxAdv: 2, MaxReloads: 1},
+			Traces: traces, Advances: advances[:1], EjectBytes: []int{-1, 0}, Depth: q(6, 8), MaxSpansPerTrace: 3, MaxAdv: 2, MaxReloads: 1, NoMergeDepth: 4},
 		{Name: "rules-root-w1", Workers: 1, IDs: w1[:2], Kinds: rc, Samplers: []func() any{rulesRoot}, KeptPerWorker: 4,
-			Traces: traces, Advances: advances, EjectBytes: []int{-1}, Depth: q(6, 8), MaxSpansPerTrace: 3, MaxAdv: 2, MaxReloads: 1},
+			Traces: traces, Advances: advances, EjectBytes: []int{-1}, Depth: q(6, 8), MaxSpansPerTrace: 3, MaxAdv: 2, MaxReloads: 1, NoMergeDepth: 4},
 		{Name: "kept-capacity-2", Workers: 1, IDs: w1, Kinds: []fx.Kind{fx.Child}, Samplers: []func() any{det(1)}, KeptPerWorker: 2,
-			Traces: traces, Advances: advances[:1], EjectBytes: []int{-1, 0}, Depth: q(7, 8), MaxSpansPerTrace: 2, MaxAdv: 1, MaxReloads: 1},
+			Traces: traces, Advances: advances[:1], EjectBytes: []int{-1, 0}, Depth: q(7, 8), MaxSpansPerTrace: 2, MaxAdv: 1, MaxReloads: 1, NoMergeDepth: 4},
 		{Name: "annotations-w3", Workers: 3, IDs: w3, Kinds: []fx.Kind{fx.SpanEvent, fx.Link, fx.Root}, Samplers: []func() any{det(2)}, KeptPerWorker: 4,
-			Traces: traces, Advances: advances[1:], EjectBytes: []int{-1}, Depth: q(5, 6), MaxSpansPerTrace: 3, MaxAdv: 1, MaxReloads: 0, Maintain: false},
+			Traces: traces, Advances: advances[1:], EjectBytes: []int{-1}, Depth: q(5, 6), MaxSpansPerTrace: 3, MaxAdv: 1, MaxReloads: 0, NoMergeDepth: 3, Maintain: false},
 	}
 	// a per-tick decision quota: with MaxExpiredTraces=1 and three traces of one worker expiring together, every
 	// tick decides exactly one of them and the rest must stay in line (C02: every accepted span's trace is
@@ -72,10 +75,10 @@ func Scenarios(r *ev.Run, withDry bool) []*Scenario {
 	quota := traces
 	quota.MaxExpiredTraces = 1
 	out = append(out, &Scenario{Name: "max-expired-1-w1", Workers: 1, IDs: w1, Kinds: rc, Samplers: []func() any{det(1)}, KeptPerWorker: 4,
-		Traces: quota, Advances: advances[:1], EjectBytes: []int{-1}, Depth: q(6, 7), MaxSpansPerTrace: 2, MaxAdv: 2, MaxReloads: 0})
+		Traces: quota, Advances: advances[:1], EjectBytes: []int{-1}, Depth: q(6, 7), MaxSpansPerTrace: 2, MaxAdv: 2, MaxReloads: 0, NoMergeDepth: 3})
 	if withDry {
 		out = append(out, &Scenario{Name: "dryrun-w1", Workers: 1, IDs: w1[:2], Kinds: rc, Samplers: []func() any{det(2), det(1)}, KeptPerWorker: 4, DryRun: true,
-			Traces: traces, Advances: advances[:1], EjectBytes: []int{-1}, Depth: q(6, 7), MaxSpansPerTrace: 3, MaxAdv: 1, MaxReloads: 1})
+			Traces: traces, Advances: advances[:1], EjectBytes: []int{-1}, Depth: q(6, 7), MaxSpansPerTrace: 3, MaxAdv: 1, MaxReloads: 1, NoMergeDepth: 3})
 	}
 	if only := os.Getenv("VERIF_SCENARIO"); only != "" {
 		var f []*Scenario
